@@ -12,7 +12,6 @@ import (
 	"bufio"
 	"bytes"
 	"fmt"
-	"io"
 	"math/rand/v2"
 	"os"
 	"strings"
@@ -64,9 +63,15 @@ func main() {
 	}
 	e := common.New(2)
 	n := e.Pick(720, 36000)
-	for i := 0; i < n; i++ {
+	// planned programs behind the random ones: every filter chain pattern, every shape of a
+	// chain declared in the dictionary, and the sweeps across the reader's buffer boundary
+	specials := append(prog.ChainSpecials(), prog.BoundarySpecials(e.Thorough)...)
+	for i := 0; i < n+len(specials); i++ {
 		id := fmt.Sprintf("p%d", i)
 		cfg, plan := plans(e, i, e.Rand)
+		if i >= n {
+			cfg, plan = specials[i-n].Cfg, specials[i-n].Plan
+		}
 		if i < 9 {
 			// the known situations first, in configurations where they show
 			cfg = prog.Config{VIdx: 5 + i%4, Seek: i%2 == 0}
@@ -219,21 +224,22 @@ func cross(path string) {
 				}
 			default:
 				if stm, ok := got.(*pdf.Stream); ok {
-					var dec []byte
-					rd, err := pdf.DecodeStream(r, nil, stm)
-					if err == nil {
-						dec, err = io.ReadAll(rd)
+					k := -1
+					if qs[i+2][0] == 'c' {
+						fmt.Sscan(qs[i+2][1:], &k)
 					}
+					dec, err := prog.DecodeFirst(r, stm, k)
 					d := pdf.Dict{}
 					for k, v := range stm.Dict {
 						if k != "Length" && k != "Filter" && k != "DecodeParms" {
 							d[k] = v
 						}
 					}
+					head := "T " + prog.WireString(prog.Norm(d), false) + " " + prog.ChainObs(stm.Dict)
 					if err != nil {
-						obs = "T " + prog.WireString(prog.Norm(d), false) + " !"
+						obs = head + " !"
 					} else {
-						obs = "T " + prog.WireString(prog.Norm(d), false) + " " + common.Hex(dec)
+						obs = head + " " + common.Hex(dec)
 					}
 				} else {
 					obs = "V " + prog.WireString(prog.Norm(got), false)
